@@ -435,11 +435,38 @@ impl syn::parse::Parse for NestedMeta {
         } else if input.peek(syn::Ident::peek_any)
             || input.peek(Token![::]) && input.peek3(syn::Ident::peek_any)
         {
-            input.parse().map(NestedMeta::Meta)
+            input
+                .parse()
+                .map(|meta| NestedMeta::Meta(negative_value_as_lit(meta)))
         } else {
             Err(input.error("expected identifier or literal"))
         }
     }
+}
+
+/// syn reads the value of `name = -1` as one negative literal only when nothing follows it in the
+/// stream; before a comma the same tokens are `-` applied to `1`. A trailing comma is optional, so
+/// the item is the same item wherever it stands: the literal reading is used throughout.
+fn negative_value_as_lit(mut meta: syn::Meta) -> syn::Meta {
+    if let syn::Meta::NameValue(ref mut nv) = meta {
+        if let syn::Expr::Unary(syn::ExprUnary {
+            ref attrs,
+            op: syn::UnOp::Neg(_),
+            ..
+        }) = nv.value
+        {
+            if attrs.is_empty() {
+                if let Ok(lit) = syn::parse2::<syn::Lit>(nv.value.to_token_stream()) {
+                    nv.value = syn::Expr::Lit(syn::ExprLit {
+                        attrs: Vec::new(),
+                        lit,
+                    });
+                }
+            }
+        }
+    }
+
+    meta
 }
 
 impl ToTokens for NestedMeta {
